@@ -30,19 +30,23 @@ type ExecPlan struct {
 }
 
 type TaskSpec struct {
-	Name      string            `json:"name"`
-	Context   string            `json:"ctx,omitempty"`
-	NCmd      int               `json:"ncmd"`
-	NVar      int               `json:"nvar,omitempty"`
-	NBefore   int               `json:"nbefore,omitempty"`
-	NAfter    int               `json:"nafter,omitempty"`
-	Cond      bool              `json:"cond,omitempty"`
-	Allow     bool              `json:"allow,omitempty"`
-	TimeoutMS int               `json:"timeout_ms,omitempty"`
-	ExportAs  string            `json:"export_as,omitempty"`
-	Env       map[string]string `json:"env,omitempty"`
-	Vars      map[string]string `json:"vars,omitempty"`
-	Dir       string            `json:"dir,omitempty"`
+	Name        string            `json:"name"`
+	Context     string            `json:"ctx,omitempty"`
+	NCmd        int               `json:"ncmd"`
+	NVar        int               `json:"nvar,omitempty"`
+	NBefore     int               `json:"nbefore,omitempty"`
+	NAfter      int               `json:"nafter,omitempty"`
+	Cond        bool              `json:"cond,omitempty"`
+	Allow       bool              `json:"allow,omitempty"`
+	TimeoutMS   int               `json:"timeout_ms,omitempty"`
+	ExportAs    string            `json:"export_as,omitempty"`
+	Env         map[string]string `json:"env,omitempty"`
+	Vars        map[string]string `json:"vars,omitempty"`
+	Dir         string            `json:"dir,omitempty"`
+	Interactive bool              `json:"interactive,omitempty"`
+	// HookText overrides the text of a hook command, keyed "before/0", "after/1" (it must still
+	// invoke `sim <name> <block> <i> ...`)
+	HookText map[string]string `json:"hooktext,omitempty"`
 	// VarExtra: extra key/value pairs put into every variation map (values are literal text, even
 	// when they look like templates)
 	VarExtra map[string]string `json:"var_extra,omitempty"`
@@ -234,11 +238,20 @@ func buildRealTask(ts *TaskSpec) *task.Task {
 		}
 	}
 	for i := 0; i < ts.NBefore; i++ {
-		t.Before = append(t.Before, cmdText(ts.Name, "before", i))
+		if txt, ok := ts.HookText[fmt.Sprintf("before/%d", i)]; ok {
+			t.Before = append(t.Before, txt)
+		} else {
+			t.Before = append(t.Before, cmdText(ts.Name, "before", i))
+		}
 	}
 	for i := 0; i < ts.NAfter; i++ {
-		t.After = append(t.After, cmdText(ts.Name, "after", i))
+		if txt, ok := ts.HookText[fmt.Sprintf("after/%d", i)]; ok {
+			t.After = append(t.After, txt)
+		} else {
+			t.After = append(t.After, cmdText(ts.Name, "after", i))
+		}
 	}
+	t.Interactive = ts.Interactive
 	if ts.Cond {
 		t.Condition = cmdText(ts.Name, "cond", 0)
 	}
